@@ -40,4 +40,9 @@ CLAIMED = {
   text="All ordered pairs of the enumerated conventional-shape universe are compared on the real code against the ComparableVersion port; the port is re-validated against maven-artifact 3.8.7 on the same universe (thorough tier; 1.1M pairs, 0 disagreements when built).",
   note="Trusted base: engine/ref/maven.go and /usr/share/maven/lib/maven-artifact-3.x.jar. Exotic chains and bare single-letter aliases are outside the domain as the property states.",
   ref="DESIGN.md 4 (C12), Appendix A.5"),
+ "C13": dict(
+  technique="bounded-exhaustive enumeration of RubyGems version strings (grammar of numeric cores with dotted/glued/hyphenated letter groups, RubyGems' examples, all token strings <= L) x all ordered pairs on the real Compare against a Go port of Gem::Version#<=>",
+  text="All ordered pairs of the enumerated universe (restricted to RubyGems' own VERSION_PATTERN) are compared on the real code against the port of Gem::Version's canonical-segment comparison.",
+  note="Trusted base: engine/ref/gem.go, asserted on every run against RubyGems' documented examples; no ruby exists in this image, so the port is not conformance-checked against an executable RubyGems.",
+  ref="DESIGN.md 4 (C13), Appendix A.6"),
 }
